@@ -11,7 +11,7 @@ for rf in sorted(glob.glob(RES + "/*.json")):
     src = r["dir"]
     d = os.path.join(DST, "%s-%s" % (prop, m))
     os.makedirs(d, exist_ok=True)
-    for f in ("patch.diff", "demo.cc", "notes.txt"):
+    for f in ("patch.diff", "demo.cc", "demo.sh", "notes.txt"):
         if os.path.exists(os.path.join(src, f)):
             shutil.copy(os.path.join(src, f), d)
     notes = open(os.path.join(src, "notes.txt")).read() if os.path.exists(os.path.join(src, "notes.txt")) else ""
